@@ -387,10 +387,14 @@ EXPLANATION["C17"] = ("Partial: TOKEN LEVEL only. Text is modelled as a list of 
                       "symbolic push payloads and decides that the re-parsed script is the original: element kinds, opcode identities, push class chosen from the data length (direct / PUSHDATA1 / PUSHDATA2), "
                       "payload bytes, conditional nesting with empty and missing branches. NOT decided: character-level behaviour (whitespace runs, line breaks, upper-case or odd-length hex, what exactly is "
                       "rejected), the extended rendering, strum's generated name tables.")
+OBLIGATIONS.append(M("C17", "c17_asm_extended", {"q": "asm_roundtrip", "part": "extended", "name": "asm_extended"}, ["Script::to_asm_string_impl(extended = true)", "Script::script_bits_to_asm_string (+closure, format! executed)"],
+                     "the EXTENDED rendering of fourteen minimally pushed structured scripts (one listing EVERY named opcode except the conditional and OP_PUSHDATA opcodes; direct pushes of 1, 2, 3, 75 bytes; PUSHDATA1 of 76 and 255; PUSHDATA2 of 256; IF/ELSE, NOTIF, empty branches, two-level nesting; OP_0), payload bytes symbolic: "
+                     "every direct push renders as `OP_PUSH <decimal length> <hex>`, every OP_PUSHDATAn push as `<opcode name> <decimal length> <hex>`, OP_0 as its name, at every nesting depth; format! templates of the compiled "
+                     "format_args! are expanded by the model (length-prefixed literal pieces, 0xc0 = next argument)", cost=1))
 OBLIGATIONS.append(M("C17", "c17_asm_alias_values", {"q": "asm_roundtrip", "alias": "include"}, ["Script::to_asm_string_impl", "Script::from_asm_string", "Script::map_string_to_script_bit"],
-                     "the same thirteen scripts with NO restriction on the payloads: the only deviation is the open known finding (a one-byte push 0x10..0x16 renders as '10'..'16' and is read back as OP_10..OP_16); any other deviation on these paths is reported", cost=1))
+                     "the same fourteen scripts with NO restriction on the payloads: the only deviation is the open known finding (a one-byte push 0x10..0x16 renders as '10'..'16' and is read back as OP_10..OP_16); any other deviation on these paths is reported", cost=1))
 OBLIGATIONS.append(M("C17", "c17_asm_tokens", {"q": "asm_roundtrip", "alias": "exclude"}, ["Script::to_asm_string_impl", "Script::script_bits_to_asm_string (+closure)", "Script::from_asm_string (+closure)", "Script::map_string_to_script_bit", "Script::if_statement_pass / read_if_statement / read_pass / read_fail", "VarInt::get_pushdata_opcode"],
-                     "thirteen minimally-pushed structured scripts (opcodes; direct pushes of 1, 2, 3, 75 bytes; PUSHDATA1 of 76 and 255; PUSHDATA2 of 256; IF/ELSE, NOTIF without ELSE, empty branches, two-level nesting; OP_0; the empty script) with ALL payload bytes symbolic except that one-byte payloads are assumed outside 0x10..0x16 (those seven values are the subject of c17_asm_alias_values) - every other one- and two-byte payload whose hex text is all digits is covered", cost=1,
+                     "fourteen minimally-pushed structured scripts (one listing EVERY named opcode except the conditional - incl. OP_VERIF / OP_VERNOTIF, which the parser treats as openers - and OP_PUSHDATA opcodes; opcodes; direct pushes of 1, 2, 3, 75 bytes; PUSHDATA1 of 76 and 255; PUSHDATA2 of 256; IF/ELSE, NOTIF without ELSE, empty branches, two-level nesting; OP_0; the empty script) with ALL payload bytes symbolic except that one-byte payloads are assumed outside 0x10..0x16 (those seven values are the subject of c17_asm_alias_values) - every other one- and two-byte payload whose hex text is all digits is covered", cost=1,
                      stubs=("E2 text models: <OpCodes as ToString>::to_string / <i32 as ToString>::to_string -> literal tokens; hex::encode / hex::decode -> inverse token constructors; [String]::join(\" \") / str::split(' ') / str::trim / String::is_empty / <str as PartialEq>::eq on tokens; <OpCodes as FromStr>::from_str by variant name; collect::<Result<Vec<_>, _>>",)))
 
 OBLIGATIONS.append(M("C07", "c07_address_string", {"q": "address_string"}, ["P2PKHAddress::to_string_impl", "P2PKHAddress::from_string_impl"],
